@@ -301,7 +301,7 @@ func checkC25(c *Ctx, r *Report) {
 	for _, cs := range callers {
 		r.fn(cs.caller)
 		key := cs.caller.Name() + " truncates the window before rating"
-		if !allowed[cs.caller.Name()] {
+		if !allowed[shortName(cs.caller)] {
 			r.viol("C25.R3", "recomputeLocked caller "+funcName(cs.caller), m.Pos(cs.in.Pos()), "rating computed outside the three entry points that first drop samples older than the window")
 			continue
 		}
@@ -317,7 +317,7 @@ func checkC25(c *Ctx, r *Report) {
 	// helpers is preceded, on every path, by recomputeLocked (a rating that is only refreshed when
 	// the truncation dropped something stays stale once the window has emptied)
 	for _, fn := range m.FuncsInPkg(pkgBrokerLib) {
-		switch fn.Name() {
+		switch shortName(fn) {
 		case "recomputeLocked", "setStateLocked", "NewS3HealthMonitor":
 			continue
 		}
